@@ -170,6 +170,43 @@ def spec_apply(cur, op):
     raise ValueError(k)
 
 
+def spec_apply_sym(state, op):
+    """the atomic map with a second ref: state = (R is symbolic -> other?, R's own value, other's value)"""
+    sym, rv, ov = state
+    cur = ov if sym else rv
+    k = op[0]
+    put = (lambda v: (sym, rv, v)) if sym else (lambda v: (sym, v, ov))
+    if k == "sym":
+        return (True, rv, ov), True
+    if k == "cas":
+        return (put(op[2]), True) if cur == op[1] else (state, False)
+    if k == "set":
+        return put(op[1]), True
+    if k == "read":
+        return state, cur
+    raise ValueError(k)
+
+
+def linearizable_sym(init, actors, ops, final, final_sym, final_other):
+    """as linearizable(), over (R, other) with set_symbolic_ref(R, other) among the operations"""
+    n = len(actors)
+    for perm in itertools.permutations(range(n)):
+        pos = {a: i for i, a in enumerate(perm)}
+        if any(ops[a]["resp"] <= ops[b]["inv"] and pos[a] > pos[b] for a in range(n) for b in range(n) if a != b):
+            continue
+        state, ok = (False, init, 4), True
+        for a in perm:
+            if ops[a]["res"] == "locked":
+                continue
+            state, res = spec_apply_sym(state, actors[a])
+            if res != ops[a]["res"]:
+                ok = False
+                break
+        if ok and state[0] == final_sym and (state[2] if state[0] else state[1]) == final and state[2] == final_other:
+            return perm
+    return None
+
+
 def linearizable(init, actors, ops, final):
     n = len(actors)
     for perm in itertools.permutations(range(n)):
@@ -222,6 +259,11 @@ def scenarios(thorough):
         add(init, ("commit", 1), ("commit", 2), ("read",))
     add("wt-loose0", ("commit", 1), ("cas", 0, 3))
     add("wt-loose0", ("commit", 1), ("commit", 2), ("commit", 3))
+    # a name turned symbolic while an update of it is under way (refs/heads/other holds value 4)
+    for init in ("loose0", "packed0"):
+        add(init, ("set", 1), ("sym",))
+        add(init, ("cas", 0, 1), ("sym",))
+        add(init, ("set", 1), ("sym",), ("read",))
     # two maintenance processes and one writer: every single pre-emption
     add("packed0", ("pack",), ("set", 1), ("pack",))
     add("loose0", ("pack",), ("cas", 0, 1), ("pack",))
@@ -280,6 +322,11 @@ def run(rep):
                 lost = [c for c in won if c not in x["anc"]]
                 if lost:
                     rep.fail("lost-commit", "commit %s was reported successful but is not in the history of the final tip %s (history %s)" % (lost, x["final"], x["anc"]), full)
+            elif any(a[0] == "sym" for a in actors):
+                is_sym = isinstance(x["loose"], str) and x["loose"].startswith("ref:")
+                if linearizable_sym(INIT_VALUE[iname], spec_actors, x["ops"], x["final"], is_sym, x.get("other")) is None:
+                    rep.fail("not-linearizable", "no order of the operations explains results %s with %s = %s (%s), refs/heads/other = %s" % (
+                        [o["res"] for o in x["ops"]], "refs/heads/main", x["final"], "symbolic" if is_sym else "direct", x.get("other")), full)
             elif linearizable(INIT_VALUE[iname], spec_actors, x["ops"], x["final"]) is None:
                 deleted = any(a[0] in ("del", "delu") and o["res"] is True for a, o in zip(actors, x["ops"]))
                 packing = any(a[0] == "pack" for a in actors)
